@@ -192,6 +192,11 @@ func (fr *Frame) opaqueFuncCall(site ssa.Instruction, fv *Term, sig *types.Signa
 			case "slice":
 				res = SliceV{App("getSliceBase", SRef, fv), App("getSliceLen", SInt, fv)}
 				vc.wellFormed(st, res)
+			case "ref":
+				res = App("getRef", SRef, fv)
+				// whatever the getter returns exists already
+				vc.addFact(st, Lt(RootID(res.(*Term)), IntLit(vc.allocN)))
+				vc.assumed["A-GETTER: parameterless function values returning a pointer are deterministic and effect-free"] = true
 			}
 			if _, isTerm := res.(*Term); isTerm || kindOf(rt0) == "slice" {
 				if k := kindOf(rt0); k == "str" || k == "bool" || k == "slice" {
@@ -295,7 +300,7 @@ func (fr *Frame) contractForInline(f *ssa.Function) *Contract {
 
 // execFunction runs f's body on st (updated in place to the merged return state) and returns its result
 func (vc *VC) execFunction(f *ssa.Function, bindings []Value, args []Value, st *State, ct *Contract) Value {
-	fr := &Frame{vc: vc, fn: f, env: map[ssa.Value]Value{}, cells: map[*ssa.Alloc]*LocalCell{}, loops: vc.prog.loopsOf(f), contract: ct}
+	fr := &Frame{vc: vc, fn: f, env: map[ssa.Value]Value{}, cells: map[*ssa.Alloc]*LocalCell{}, loops: vc.prog.loopsOf(f), contract: ct, entryAlloc: vc.allocN}
 	fr.specEnv = map[string]SVal{}
 	for i, p := range f.Params {
 		fr.env[p] = args[i]
@@ -305,6 +310,7 @@ func (vc *VC) execFunction(f *ssa.Function, bindings []Value, args []Value, st *
 		fr.env[fv] = bindings[i]
 		fr.specEnv[fv.Name()] = SVal{V: bindings[i], T: fv.Type()}
 	}
+	fr.ghostCode(ct, "enter", st, fr.specEnv)
 	fr.entry = st.clone()
 	vc.stack = append(vc.stack, f)
 	defer func() { vc.stack = vc.stack[:len(vc.stack)-1] }()
@@ -344,6 +350,14 @@ func (vc *VC) execFunction(f *ssa.Function, bindings []Value, args []Value, st *
 		}
 	}
 	*st = *m
+	if ct != nil && hasKind(ct, "leave") && acc != nil {
+		env := map[string]SVal{}
+		for k, v := range fr.specEnv {
+			env[k] = v
+		}
+		bindResults(ct, f.Signature, acc, env)
+		fr.ghostCode(ct, "leave", st, env)
+	}
 	return acc
 }
 
@@ -400,6 +414,7 @@ func (fr *Frame) applyContract(site ssa.Instruction, ct *Contract, sig *types.Si
 		vc.oblige(st, "pre", ct.Key+"/"+cl.Label, ct.clauseProps(cl), t, site.Pos())
 		vc.addFact(st, t)
 	}
+	fr.ghostCode(ct, "enter", st, env)
 	// havoc the frame
 	fr.havocAssigns(ct, st)
 	// results
@@ -473,6 +488,7 @@ func (fr *Frame) applyContract(site ssa.Instruction, ct *Contract, sig *types.Si
 			vc.addFact(st, ev.evalBool(rest))
 		}
 	}
+	fr.ghostCode(ct, "leave", st, env)
 	return res
 }
 
@@ -546,7 +562,7 @@ func (fr *Frame) havocAssigns(ct *Contract, st *State) {
 	if !ct.Lib {
 		// a module function may allocate and initialise fresh memory
 		for k, h := range st.Heap {
-			st.Heap[k] = HavocAbove(h, vc.allocN, VarB(freshName(k+"@call"), h.S, vc.allocN+2))
+			st.Heap[k] = HavocAbove(h, vc.allocN, VarB(freshName(k+"@call"), h.S, vc.allocN+1))
 		}
 	}
 	for _, a := range ct.Assigns {
@@ -554,14 +570,14 @@ func (fr *Frame) havocAssigns(ct *Contract, st *State) {
 		case a == "*":
 			st.ghost(vc, "msgver")
 			for k, h := range st.Heap {
-				st.Heap[k] = VarB(freshName(k+"@call"), h.S, vc.allocN+2)
+				st.Heap[k] = VarB(freshName(k+"@call"), h.S, vc.allocN+1)
 			}
 			for g, t := range st.Ghost {
 				st.Ghost[g] = Var(freshName("g."+g+"@call"), t.S)
 			}
 		case a == "fresh":
 			for k, h := range st.Heap {
-				st.Heap[k] = HavocAbove(h, vc.allocN, VarB(freshName(k+"@call"), h.S, vc.allocN+2))
+				st.Heap[k] = HavocAbove(h, vc.allocN, VarB(freshName(k+"@call"), h.S, vc.allocN+1))
 			}
 		case strings.HasPrefix(a, "obj:"):
 			st.Ghost["msgver"] = Add(st.ghost(vc, "msgver"), IntLit(1))
@@ -586,17 +602,17 @@ func (fr *Frame) havocAssigns(ct *Contract, st *State) {
 				// unknown object: fall back to havocing everything
 				vc.warn("assigns %s in %s: object not statically known, whole heap havoced", a, ct.Key)
 				for k, h := range st.Heap {
-					st.Heap[k] = VarB(freshName(k+"@call"), h.S, vc.allocN+2)
+					st.Heap[k] = VarB(freshName(k+"@call"), h.S, vc.allocN+1)
 				}
 				continue
 			}
 			for k, h := range st.Heap {
-				nv := VarB(freshName(k+"@obj"), h.S, vc.allocN+2)
+				nv := VarB(freshName(k+"@obj"), h.S, vc.allocN+1)
 				st.Heap[k] = HavocFam(h, lo, nv)
 			}
 		case strings.HasPrefix(a, "C:") || strings.HasPrefix(a, "M:"):
 			h := st.heapGet(a)
-			st.Heap[a] = VarB(freshName(a+"@call"), h.S, vc.allocN+2)
+			st.Heap[a] = VarB(freshName(a+"@call"), h.S, vc.allocN+1)
 		default:
 			// ghost variable
 			if gd, ok := vc.prog.specs.Ghost[a]; ok {
@@ -892,4 +908,68 @@ func maxLit(t *Term) (int64, bool) {
 		}
 	}
 	return 0, false
+}
+
+// ghostCode runs the "enter" / "leave" ghost assignments of a contract on st (names: parameters, and results for leave)
+func (fr *Frame) ghostCode(ct *Contract, kind string, st *State, names map[string]SVal) {
+	if ct == nil {
+		return
+	}
+	for _, cl := range ct.Clauses {
+		if cl.Kind != kind {
+			continue
+		}
+		gd, ok := fr.vc.prog.specs.Ghost[cl.Label]
+		if !ok {
+			fr.vc.warn("%s: %s of unknown ghost %s", ct.Key, kind, cl.Label)
+			continue
+		}
+		ev := &SpecEval{vc: fr.vc, fr: fr, names: names, cur: st, old: st}
+		v := ev.rvalue(ev.eval(cl.Expr))
+		var t *Term
+		switch x := v.(type) {
+		case *Term:
+			t = x
+		case IfaceV:
+			t = x.Val
+		case SliceV:
+			t = x.Base
+		}
+		if t == nil || t.S != gd.S {
+			fr.vc.warn("%s: %s %s: value of wrong sort", ct.Key, kind, cl.Label)
+			continue
+		}
+		st.ghostVar(fr.vc, gd)
+		st.Ghost[cl.Label] = t
+	}
+}
+
+func resultNames(ct *Contract, sig *types.Signature) []string {
+	var rn []string
+	for i := 0; i < sig.Results().Len(); i++ {
+		name := fmt.Sprintf("result%d", i)
+		if ct != nil && i < len(ct.Results) {
+			name = ct.Results[i]
+		} else if n := sig.Results().At(i).Name(); n != "" && n != "_" {
+			name = n
+		} else if sig.Results().Len() == 1 {
+			name = "result"
+		}
+		rn = append(rn, name)
+	}
+	return rn
+}
+
+func bindResults(ct *Contract, sig *types.Signature, res Value, env map[string]SVal) {
+	rn := resultNames(ct, sig)
+	switch sig.Results().Len() {
+	case 0:
+	case 1:
+		env[rn[0]] = SVal{V: res, T: sig.Results().At(0).Type()}
+		env["result"] = SVal{V: res, T: sig.Results().At(0).Type()}
+	default:
+		for i, v := range res.(TupleV) {
+			env[rn[i]] = SVal{V: v, T: sig.Results().At(i).Type()}
+		}
+	}
 }
